@@ -1,24 +1,70 @@
 from props import *  # noqa: F401,F403
 
+# Baseline configuration (ABI v1, what /repo/_build uses).
 rc_bin("c04_rc", ["harness/c04_span_content.cc"], lib=True)
 rc_bin("c04_tsan", ["harness/c04_span_content.cc"], lib=True, san="tsan")
+# The same harness against a second sanitizer build of the SDK compiled with -DOPENTELEMETRY_ABI_VERSION_NO=2:
+# Span::AddLink / Span::AddLinks (links recorded after StartSpan) and instrumentation scope attributes exist only there.
+rc_bin("c04_abi2", ["harness/c04_span_content.cc"], lib=True, abi=2)
 PROPS["C04"] = dict(
-    level_text="Model-based property tests: generated span programs (all attribute value alternatives, duplicate keys, "
-               "events/links/status/name/options, operations after End, 1..3 mixed processors, short-lived non NUL-terminated "
-               "caller storage scribbled after every call) are compared field by field with what each processor's exporter "
-               "copied inside Export. Exploration is the right level: the property quantifies over programs and inputs; the "
-               "oracle is an independent reference span model and ASan turns retained caller pointers into reports.",
+    level_text="Model-based property tests: generated span programs (all attribute value alternatives incl. strings at the "
+               "small-string boundary lengths and arrays of 200..4200 elements, duplicate keys, events with explicit "
+               "timestamps incl. 0 / 1 / -1 ns and the int64 extremes, links at StartSpan and - in the ABI v2 build - "
+               "through AddLink/AddLinks, status/name/start and end options, the virtual entry points and the container "
+               "templates of the API, operations after End, a second End, a span that is only dropped, 1..3 processors "
+               "of mixed kinds {simple, batch, own probe SpanProcessor} given to the provider or attached with "
+               "AddProcessor, AlwaysOn / RECORD_ONLY / attribute-supplying samplers, short-lived non NUL-terminated "
+               "caller storage scribbled after every call) are compared field by field with what each processor "
+               "received: once as copied at delivery time (inside Export / OnEnd) and once more by reading the delivered "
+               "recordable again after the whole program has run. The probe processor counts OnStart/OnEnd. "
+               "Exploration is the right level: the property quantifies over programs and inputs; the oracle is an "
+               "independent reference span model and ASan turns retained caller pointers into reports. The evidence "
+               "classes 'build:abi1' / 'build:abi2' say which build ran.",
     technique="model-based PBT (reference span model) over generated span programs with short-lived caller storage; rapidcheck; real threads for the multi-thread clause",
     rule="A case = provider configuration + one span program.",
+    generators="provider: 1..3 processors, kind of each from {simple 45, batch 35 (delay 1 ms | 5 s), probe 20}, last one "
+               "optionally attached by TracerProvider::AddProcessor after GetTracer (25%); sampler {AlwaysOn 70, "
+               "RECORD_AND_SAMPLE+attributes 15, RECORD_ONLY 15}; scope name/version/schema (+ attributes, ABI v2). "
+               "StartSpan: name, 0..9 attributes from a 6-key pool + odd keys, 0..3 links (15% invalid contexts), kind, "
+               "start_system_time (40%: ordinary | 1 | -1 | small), start_steady_time (40%), explicit parent (30%), "
+               "KeyValueIterable or container overload (20%). Then 0..9 operations: SetAttribute 6, AddEvent 4 (4 forms x "
+               "container overload; explicit timestamp: ordinary 12, 0 ns 3, 1, -1, u32, int64 min/max), SetStatus 2, "
+               "UpdateName 2, End 2 (end_steady_time 40%), ABI v2: AddLink 2, AddLinks(0..3) 1. A span not ended by "
+               "the program is ended by End() (65%) or only by dropping the last reference (35%, half of them after "
+               "the tracer handle was released).",
+    oracle="reference span model written from the property statement: name = last UpdateName before End; attributes = "
+           "last write per key (type and value) + the configured sampler's attributes (disjoint keys); events and links "
+           "in call order with their own last-write-wins attributes, an explicit event timestamp is kept bit-exact "
+           "(0 ns included), a missing one lies in the system-clock window of the call; status = last SetStatus pair; "
+           "kind, parent id, identity and trace flags equal span->GetContext(); scope and resource are the "
+           "provider's; start time exact when given; duration exact when both steady times are given, otherwise "
+           "bracketed by steady_clock readings taken around StartSpan and around the call that ended the span; "
+           "nothing after the first End (also not by the destructor) changes the delivered recordable; every "
+           "processor holds exactly one span after ForceFlush and after Shutdown; a probe processor saw OnStart once "
+           "(with the parent span id of the program) and OnEnd once, for the same recordable.",
     assumptions=[
-        "start/event timestamps that are not supplied are checked against the wall-clock window of the API call only",
-        "duration is checked exactly only when both steady timestamps are supplied",
-        "the multi-thread target owns no schedule (real threads): it adds sanitizer and invariant evidence only",
+        "start/event timestamps that are not supplied are checked against the system-clock window of the API call only; the "
+        "window is widened by the amount the system clock fell behind the steady clock during the call, so a backward "
+        "wall-clock step (NTP) cannot fail correct code (a forward and a backward step inside one call are not anticipated)",
+        "a start_system_time / start_steady_time / end_steady_time of exactly 0 means 'not given' by API design "
+        "(default-constructed option fields) and is therefore not generated as an explicit value; event timestamps have "
+        "no such convention: 0 ns is generated and must be kept",
+        "duration is exact only when both steady timestamps are supplied; otherwise it is bracketed by steady_clock "
+        "readings of the harness around the two SDK calls (same monotonic clock as the SDK uses)",
+        "sampler-supplied attributes use keys that no generated application key can equal: the order between start "
+        "attributes and sampler attributes for an equal key is not part of the statement",
+        "a processor is attached with AddProcessor only before the span starts (the header documents that in-flight "
+        "spans may not reach a processor added later); MakeRecordable never returns null (documented: 'a newly "
+        "initialized recordable')",
+        "the multi-thread targets own no schedule (real threads): they add sanitizer and invariant evidence only; events "
+        "are compared in call order per thread, links/name/status come from one thread",
         SC_NOTE,
     ],
     runs=[
-        run("program", "c04_rc", "span_program", "rc", dict(procs=8, cases=2500), dict(procs=16, cases=30000)),
-        run("threads", "c04_rc", "span_threads", "rc", dict(procs=3, cases=600), dict(procs=8, cases=6000), deterministic=False),
+        run("program", "c04_rc", "span_program", "rc", dict(procs=6, cases=2500), dict(procs=12, cases=30000)),
+        run("program-abi2", "c04_abi2", "span_program", "rc", dict(procs=4, cases=2500), dict(procs=8, cases=25000), replay_bin="c04_abi2"),
+        run("threads", "c04_rc", "span_threads", "rc", dict(procs=2, cases=600), dict(procs=6, cases=6000), deterministic=False),
+        run("threads-abi2", "c04_abi2", "span_threads", "rc", dict(procs=1, cases=600), dict(procs=3, cases=6000), deterministic=False, replay_bin="c04_abi2"),
         run("end-race", "c04_rc", "span_end_race", "rc", dict(procs=2, cases=400), dict(procs=4, cases=6000), deterministic=False),
         run("end-race-tsan", "c04_tsan", "span_end_race", "rc", dict(procs=2, cases=200), dict(procs=4, cases=3000), deterministic=False, replay_bin="c04_tsan"),
         run("threads-tsan", "c04_tsan", "span_threads", "rc", dict(procs=2, cases=250), dict(procs=4, cases=4000), deterministic=False, replay_bin="c04_tsan"),
